@@ -3,22 +3,22 @@ CONSTANTS
  Known <- KnownTk
  NP = 2
  Groups <- TwoGroups
- Apis <- AllApis
- MaxItems = 1
- MaxReq = 1
- MaxEnv = 0
- Leasing = FALSE
- AutoSet <- BothAuto
+ Apis <- ProduceOnly
+ MaxItems = 2
+ MaxReq = 2
+ MaxEnv = 1
+ Leasing = TRUE
+ AutoSet <- AutoOn
  RichPerms = FALSE
  FixMetaAcl = TRUE
- DevNoAclOn <- NoAclOffsetFetch
+ DevNoAclOn <- NoApis
  DevGateAfterAppend = "none"
  DevLeaseCheckSkipped = FALSE
  DevFetchAclOnRequestName = FALSE
  DevStaleOwnedOnSessionReplace = FALSE
- DevLeaseErrMisindexed = FALSE
+ DevLeaseErrMisindexed = TRUE
 INIT Init
 NEXT Next
-INVARIANTS C24_NoEffect C24_AuthError C24_NoLeak
+INVARIANTS C19_AckOnlyIfHeld C19_NoWriteUnlessHeld C19_RefusalCode C19_NotLeaderForOtherOwner
 VIEW View
 CHECK_DEADLOCK FALSE
